@@ -152,3 +152,15 @@ def dnf_covers(conj, alternatives) -> bool:
         if not any(all(env.get(atom) == v for atom, v in a) for a in alts):
             return False
     return True
+
+
+def drop_exit_facts(guards, loops=()):
+    """Guards of an effect without the literals that merely record that an earlier loop has run to completion (its test, negated, over the
+    loop's own iteration variables): those hold on every path that reaches the effect and are not branch conditions."""
+    out = []
+    for c, pol in guards:
+        lids = {x[1] for x in subterms(c) if isinstance(x, tuple) and x and x[0] == "loop" and len(x) == 3}
+        if lids and not (lids & set(loops)) and not pol:
+            continue
+        out.append((c, pol))
+    return tuple(out)
